@@ -69,6 +69,38 @@ fn count_ifs(tokens: &[String], from: usize) -> usize {
     tokens.iter().skip(from).filter(|t| t.as_str() == "IF").count()
 }
 
+/// Run the program on the Web adapter (natively compiled) and count the calls that start or
+/// continue evaluation until it is no longer running. None: it asked for input or did not end.
+fn web_eval_calls(pc: &ProgCase, cap: u64) -> Result<Option<u64>, String> {
+    use crate::websess::{WSt, WebSess};
+    let mut w = WebSess::new();
+    for i in crate::lockstep::entry_order(pc.lines.len(), pc.order_seed) {
+        w.start_evaluating(&crate::ast::print_line(&pc.lines[i]))?;
+        let _ = w.take_latest_output()?;
+        if w.state()? == WSt::Errored {
+            let _ = w.take_latest_error()?;
+        }
+    }
+    w.randomize(pc.seed)?;
+    w.start_evaluating("RUN")?;
+    let mut n = 1u64;
+    loop {
+        let _ = w.take_latest_output()?;
+        match w.state()? {
+            WSt::Running if n < cap => {
+                w.continue_evaluating()?;
+                n += 1;
+            }
+            WSt::Running | WSt::Awaiting => return Ok(None),
+            WSt::Errored => {
+                let _ = w.take_latest_error()?;
+                return Ok(Some(n));
+            }
+            WSt::Idle => return Ok(Some(n)),
+        }
+    }
+}
+
 impl Prop for C09 {
     const ID: &'static str = "C09";
     type Case = Case;
@@ -172,6 +204,24 @@ impl Prop for C09 {
                                     format!("between printed record {} and {} the reference model executes {} statements, the interpreter used {} evaluating calls", k as i64 - 1, k, dm, dr),
                                 );
                             }
+                        }
+                    }
+                    // the Web adapter's calls are calls that start / continue evaluation too: the same
+                    // program on the adapter needs exactly as many of them as on the bare interpreter
+                    if !o.capped && o.inputs_answered == 0 && o.stops == 0 {
+                        match web_eval_calls(&pc, o.eval_calls + 8) {
+                            Ok(Some(n)) => {
+                                ctx.count("reach.web_adapter_turn_count_compared");
+                                if n < o.eval_calls {
+                                    return v(
+                                        "more-than-one-statement",
+                                        "web adapter: fewer evaluating calls than the interpreter".into(),
+                                        format!("the program ran to its end in {} evaluating calls of the Web adapter but takes {} on the interpreter: an adapter call executes more than one statement", n, o.eval_calls),
+                                    );
+                                }
+                            }
+                            Ok(None) => {}
+                            Err(p) => return v("web-trap", format!("panic@{p}"), format!("the Web adapter trapped: {p}")),
                         }
                     }
                     if !o.capped {
